@@ -782,7 +782,7 @@ class SegmentationImage:
         if relabel:
             labels = np.unique(relabel_map[relabel_map != 0])
             if len(labels) != 0:
-                map2 = np.zeros(max(labels) + 1, dtype=dtype)
+                map2 = np.zeros(int(max(labels)) + 1, dtype=dtype)
                 map2[labels] = np.arange(len(labels), dtype=dtype) + 1
                 relabel_map = map2[relabel_map]
 
